@@ -60,6 +60,13 @@ CHECKS["C15"] = dict(level="other", design="3/C15", technique="IR equivalence of
     text="Decides the structural part: per-digit scale equals the base, the chunk factor equals base^stride for the stride scan_base itself announces (so a stride/chunk disagreement, invisible to tokens shorter than one chunk, is caught), digit tables are correct on every valid character class and mutual negations, a chunk fits the int64 accumulator, the bit-width estimate is >= log2(base) per digit; digits/signedness/exponent of types deduced from values.",
     note="That a given token or constant<V> yields exactly its value / used-digit count is NOT decided: it would require evaluating parse/used_digits/trailing_bits on values.")
 
+CHECKS["C18"] = dict(level="other", design="3/C18", technique="IR equivalence with the <bit> library functions on a frozen claimed set (both compiler configurations), UB-mode analysis of every utility (interval-set lines for pinned rotation counts, residual traps for free counts), scalar-evolution loop bounds",
+    text="For the intrinsic-backed widths (and every width of ispow2/rotl/rotr) the CNL utility and its <bit> counterpart reduce to one normal form for all values, on the Clang configuration and on the GCC configuration (intrinsic specialisations, where llvm.cttz/ctlz zero-poison flags expose an unguarded intrinsic); no utility keeps an out-of-range shift, an invalid builtin argument or a division for any value on any width.",
+    note="Generic recursive definitions on 8/16/128-bit types that LLVM does not bring to the intrinsic form are listed as unproved, not claimed; value correctness of used_digits/leading_bits/trailing_bits is not decided.")
+CHECKS["C19"] = dict(level="other", design="3/C19", technique="type facts and compile-fail witnesses; loop termination by scalar evolution or a shift ranking rule on the optimised IR; residual sanitizer traps",
+    text="sqrt's result types (elastic digits (D+1)/2 with an integer-sqrt oracle, scaled exponent E/2, odd exponents rejected), termination of both loops for all 8..128-bit reps, and absence of out-of-range shifts.",
+    note="That the returned root is floor(sqrt(x)) — the digit-by-digit algorithm over run-time values, including root + bit at the top of the range — is NOT decided.")
+
 NOT_APPLICABLE = {
     "C10": "limb-array loops of the vendored uintwide_t have data-dependent control; no static abstraction in reach relates them to arithmetic mod 2^N (DESIGN 3/C10)",
     "C17": "termination/accuracy of the floating-point driven Stern-Brocot loop is a numerical statement with no structural clause (DESIGN 3/C17)",
